@@ -48,3 +48,57 @@ var _ = core.ModPath
 func sameFn(f *ssa.Function) func(*ssa.Function) bool {
 	return func(g *ssa.Function) bool { return f != nil && g == f }
 }
+
+// reachesAvoiding: g is f or calls it through a chain that does not pass through avoid.
+func reachesAvoiding(c *rules.Ctx, f, avoid *ssa.Function) func(*ssa.Function) bool {
+	return func(g *ssa.Function) bool {
+		if f == nil || g == nil || g == avoid {
+			return false
+		}
+		seen := map[*ssa.Function]bool{g: true}
+		work := []*ssa.Function{g}
+		cg := c.P.CallGraph()
+		for len(work) > 0 {
+			x := work[len(work)-1]
+			work = work[:len(work)-1]
+			if x == f {
+				return true
+			}
+			n := cg.Nodes[x]
+			if n == nil || !c.P.InModule(x) {
+				continue
+			}
+			for _, e := range n.Out {
+				y := e.Callee.Func
+				if y != avoid && !seen[y] {
+					seen[y] = true
+					work = append(work, y)
+				}
+			}
+		}
+		return false
+	}
+}
+
+// reachesFn: g is f or (transitively) calls f - so that moving a call into a helper does not
+// change the verdict.
+func reachesFn(c *rules.Ctx, f *ssa.Function) func(*ssa.Function) bool {
+	memo := map[*ssa.Function]bool{}
+	return func(g *ssa.Function) bool {
+		if f == nil || g == nil {
+			return false
+		}
+		if g == f {
+			return true
+		}
+		if v, ok := memo[g]; ok {
+			return v
+		}
+		if !c.P.InModule(g) {
+			return false
+		}
+		_, r := c.P.Reachable(g)[f]
+		memo[g] = r
+		return r
+	}
+}
